@@ -775,6 +775,8 @@ func execBatch(sc *Scenario, env *Env) *Result {
 		}
 	case "diskfault":
 		allV = append(allV, execDiskFault(sc, env, refs, order, run, res)...)
+	case "realbin":
+		allV = append(allV, execRealBinary(sc, env, root, refs, order, res)...)
 	}
 	seen := map[string]bool{}
 	for _, v := range allV {
@@ -819,7 +821,7 @@ func init() {
 				sc.Sched.Overlap = []int{r.Intn(3), r.Range(3, 40), r.Range(40, 400)}
 				sc.Sched.OverlapK = r.PickI([]int{0, 2, 3, 8})
 			default:
-				sc.Params["mode"] = []string{"serial", "permute", "diskfault", "stale", "crash", "permute"}[idx%6]
+				sc.Params["mode"] = []string{"serial", "permute", "diskfault", "stale", "crash", "permute", "realbin"}[idx%7]
 			}
 			if r.Bool(0.3) {
 				sc.Params["log"] = "0"
@@ -832,8 +834,8 @@ func init() {
 		RaceFrac:   0.25,
 		NonTrivial: batchNonTrivial,
 		Chunk:      6,
-		Rule:       "one batch scenario (1-4 generated projects, 2-24 lines, concurrency 1..16) per evaluation, executed by the real dispatcher inside a synctest bubble under a seeded scheduler; modes rotate over serial / permuted+other concurrency / write errors (sticky, transient, torn) on one line's result stream / stale files / crash and re-run over torn survivors / overlap windows under the race detector; non-trivial = at least two runs were parked simultaneously (a real interleaving choice existed); distinct = distinct hash of the (task, point) decision sequence projected on pool and send events",
-		ReachKeys:  []string{"reach.interleaved", "fault.permutation", "fault.stale-file", "fault.crash", "fault.overlap-window", "fault.write-error.scenarios", "reach.records-resumed-after-fault"},
+		Rule:       "one batch scenario (1-4 generated projects, 2-24 lines, concurrency 1..16) per evaluation, executed by the real dispatcher inside a synctest bubble under a seeded scheduler; modes rotate over serial / permuted+other concurrency / write errors (sticky, transient, torn) on one line's result stream / stale files / crash and re-run over torn survivors / the shipped binary on the real disk over planted stale files (unscheduled, real Go scheduler) / overlap windows under the race detector; non-trivial = at least two runs were parked simultaneously (a real interleaving choice existed); distinct = distinct hash of the (task, point) decision sequence projected on pool and send events",
+		ReachKeys:  []string{"reach.interleaved", "fault.permutation", "fault.stale-file", "fault.crash", "fault.overlap-window", "fault.write-error.scenarios", "reach.records-resumed-after-fault", "realbin.batches"},
 		Assumptions: []string{
 			"interleavings are sampled at hook granularity (run start, every pooled-file Get, result-file open/close/record end, log and result sends) plus windows of real parallel execution; not all Go-scheduler interleavings are enumerated",
 			"the reference of every line is the same line executed alone in a fresh session on the same input files",
@@ -888,4 +890,83 @@ func stripLogIDs(s string) string {
 		b.WriteByte(s[i])
 	}
 	return strings.TrimSpace(b.String())
+}
+
+// execRealBinary runs the batch through the shipped simulator binary (real main(), real dispatcher, real file
+// writer, real Go scheduler) on the real disk, over stale result files of an earlier session that are longer than
+// what the runs will write. Unscheduled: the oracles are the schedule-independent ones (every line byte-identical
+// to its solo run, error summary). A violation found here is executed again; one that does not reproduce is
+// counted, not reported.
+func execRealBinary(sc *Scenario, env *Env, root string, refs []*lineRef, order []int, res *Result) []batchViol {
+	bin := os.Getenv("VERIF_HERMES2GO")
+	if bin == "" {
+		bin = filepath.Join(verifRoot(), ".build", "hermes2go")
+	}
+	r := NewRNG(sc.Sched.Sub).Sub("realbin", 0)
+	bf := filepath.Join(root, "batch.txt")
+	os.WriteFile(bf, []byte(strings.Join(batchLinesText(sc, order, false), "\n")+"\n"), 0o644)
+	once := func() (*BatchOutcome, string) {
+		// stale files
+		for i := range sc.Lines {
+			for name, data := range refs[i].files {
+				if r.Bool(0.7) {
+					p := resultPathOf(sc, root, i, name)
+					os.MkdirAll(filepath.Dir(p), 0o755)
+					os.WriteFile(p, append(append([]byte{}, data...), []byte("STALE RECORD OF AN EARLIER SESSION\r\nSTALE\r\n")...), 0o644)
+					res.add("fault.stale-file-real-disk", 1)
+				}
+			}
+		}
+		argv := []string{"-module", "batch", "-concurrent", fmt.Sprint(sc.Sched.Concurrency), "-workingdir", root, "-batch", bf}
+		if sc.Params["log"] != "0" {
+			argv = append(argv, "-logoutput")
+		}
+		cmd := exec.Command(bin, argv...)
+		cmd.Dir = root
+		outB, err := cmd.CombinedOutput()
+		disk := NewSimDisk()
+		for _, w := range sc.Worlds {
+			dir := filepath.Join(root, "project", w.Loc, "RESULT")
+			ents, _ := os.ReadDir(dir)
+			for _, e := range ents {
+				if b, rerr := os.ReadFile(filepath.Join(dir, e.Name())); rerr == nil {
+					disk.Plant(root+"/project/"+w.Loc+"/RESULT/"+e.Name(), b)
+				}
+			}
+		}
+		msg := ""
+		if err != nil {
+			msg = fmt.Sprintf("hermes2go %s: %v: %s", strings.Join(argv, " "), err, firstLine(lastNonEmpty(string(outB))))
+		}
+		return &BatchOutcome{Disk: disk, Stdout: string(outB)}, msg
+	}
+	judge := func() []batchViol {
+		out, msg := once()
+		if msg != "" {
+			return []batchViol{{"real-binary", "simulator-binary-failed", msg, ""}}
+		}
+		scratch := &Result{}
+		return checkBatchOutcome(sc, order, refs, out, scratch, false)
+	}
+	res.add("realbin.batches", 1)
+	vs := judge()
+	if len(vs) == 0 {
+		return nil
+	}
+	// confirm: the same batch once more (fresh stale files); only what shows again is reported
+	again := judge()
+	var kept []batchViol
+	for _, v := range vs {
+		for _, w := range again {
+			if v.oracle == w.oracle && v.class == w.class {
+				v.detail = "[shipped binary on the real disk, -concurrent " + fmt.Sprint(sc.Sched.Concurrency) + "] " + v.detail
+				kept = append(kept, v)
+				break
+			}
+		}
+	}
+	if len(kept) < len(vs) {
+		res.add("realbin.violations-not-reproduced", float64(len(vs)-len(kept)))
+	}
+	return kept
 }
